@@ -248,7 +248,7 @@ class C11:
                                               "choices": [], "trace": [], "outcome": "done"})
                 elif fails:
                     res["violations"].append({"keys": sorted({f[0] for f in fails}), "fails": [], "program": {}, "choices": [], "trace": [], "outcome": "done"})
-        for part in (self.liveness, self.reuse_and_copy):
+        for part in (self.liveness, self.reuse_and_copy, self.threads):
             try:
                 await part(env, unit, res)
             except Exception as e:  # noqa: BLE001 - using the signals of a valid owner must not raise
@@ -416,6 +416,53 @@ class C11:
                     except BaseException as e:  # noqa: BLE001
                         fails.append(("unbound", f"{what} through the class raised {e!r}"))
         return fails
+
+    async def threads(self, env: Any, unit: dict, res: dict) -> None:
+        """The bound signal of (instance, attribute) is one object whichever thread asks for it first (a worker thread that is started
+        and joined - nothing runs concurrently): what is dispatched through the one reaches the subscribers of the other."""
+        import threading
+
+        classes, sigmap = build_shape(unit["shape"])
+        for first in ("thread", "main"):
+            for cls in classes:
+                inst = cls()
+                fails = []
+                for attr in sigmap[cls]:
+                    box: dict = {}
+
+                    def grab(inst: Any = inst, attr: str = attr, box: dict = box) -> None:
+                        box["sig"] = getattr(inst, attr)
+
+                    if first == "main":
+                        mine = getattr(inst, attr)
+                    t = threading.Thread(target=grab)
+                    t.start()
+                    t.join()
+                    if first == "thread":
+                        mine = getattr(inst, attr)
+                    theirs = box.get("sig")
+                    res["cases"] += 1
+                    if theirs is not mine:
+                        fails.append(("identity", f"{cls.__name__}().{attr} read in a worker thread and in the main thread ({first} first) are two bound signals"))
+                        continue
+                    got: list = []
+                    async def reader(stream: Any, got: list = got) -> None:
+                        got.append(await stream.__anext__())
+
+                    async with mine.stream_events() as stream:
+                        ev = getattr(cls, attr).event_class()
+                        theirs.dispatch(ev)
+                        res["dispatches"] += 1
+                        async with anyio.create_task_group() as rtg:
+                            rtg.start_soon(reader, stream)
+                            for _ in range(3):
+                                await anyio.lowlevel.checkpoint()
+                            rtg.cancel_scope.cancel()
+                    if got != [ev] or getattr(ev, "source", None) is not inst:
+                        fails.append(("delivery", f"an event dispatched through the bound signal a worker thread obtained did not reach the main thread's subscriber of {cls.__name__}().{attr}"))
+                if fails:
+                    res["violations"].append({"keys": sorted({f[0] for f in fails}), "fails": [list(f) for f in fails[:4]],
+                                              "program": {"shape": unit["shape"], "threads": first}, "choices": [], "trace": [], "outcome": "done"})
 
     async def liveness(self, env: Any, unit: dict, res: dict) -> None:
         classes, sigmap = build_shape(unit["shape"])
